@@ -306,3 +306,12 @@ func validVEXCSV(b []byte) bool {
 	}
 	return true
 }
+
+// validCSAF: one well-formed CSAF document to its last byte.
+func validCSAF(b []byte) bool {
+	if !json.Valid(b) {
+		return false
+	}
+	_, err := csaf.Parse(bytes.NewReader(b))
+	return err == nil
+}
